@@ -90,7 +90,7 @@ Proof.
   set (t1 := fold_left pev e (unquiet t)) in *.
   destruct r as [l| | | |]; cbn [is_div]; try contradiction.
   - (* the pass returned *)
-    destruct Hok as ([HJ' Hts'] & HG' & Hl & Hqs). cbn [Nat.eqb]. rewrite andb_true_r. destruct (0 <? l) eqn:El.
+    destruct Hok as ([HJ' Hts'] & HG' & Hl & Hqs & _). cbn [Nat.eqb]. rewrite andb_true_r. destruct (0 <? l) eqn:El.
     2:{ split; assumption. }
     destruct (quiet_counts tnt x' _ t1 HJ' (Hqs ltac:(lia)) HG') as [Ealive Hdisj].
     set (alive := count_true (parked (po_clock t1)) (po_workers t1)) in *.
@@ -115,8 +115,6 @@ Proof.
     assert (pt_stop_ok (nth 0 (po_pools t1) ptrk0) = true) as -> by (apply (js_ok _ _ _ _ _ HS), Hst).
     eapply (J_tracker_ext mx tnt tnt); [exact HJu | | | | | | | | |]; autorewrite with potr; cbn [Nat.eqb];
       rewrite ?andb_true_r; try reflexivity; try apply (jp_tclock _ _ _ HP); apply HW.
-  - (* the pass never returned *)
-    destruct Hok as [ws [W1 W2 W3 W4 W5 W6]]. unfold F3. autorewrite with potr. cbn [Nat.eqb]. auto.
 Qed.
 
 (** * stopping *)
@@ -310,34 +308,40 @@ Proof.
 Qed.
 
 Lemma stop_loop_J : forall f tnt x t dl acc,
-  Jop mx tnt x t -> quiet_off t -> p_state (get_pool x 0) = PStopping -> stop_ok tnt t acc (stop_loop f x 0 dl acc).
+  Jop mx tnt x t -> quiet_off t -> p_state (get_pool x 0) = PStopping -> dl <= U64MAX ->
+  stop_ok tnt t acc (stop_loop f x 0 dl acc) /\
+  ((1 <= f)%nat -> sat_sub dl (pw_clock x) <= (Z.of_nat f - 1) * 1000000 ->
+   snd (fst (stop_loop f x 0 dl acc)) <> StopDiverged).
 Proof.
-  induction f as [|f IH]; intros tnt x t dl acc HJop Hq Hst.
-  - cbn [stop_loop stop_ok]. exists []. rewrite app_nil_r. split; [reflexivity|]. destruct HJop as [HJ _].
+  induction f as [|f IH]; intros tnt x t dl acc HJop Hq Hst Hdl.
+  - split; [|intro H; exfalso; lia]. cbn [stop_loop stop_ok]. exists []. rewrite app_nil_r. split; [reflexivity|]. destruct HJop as [HJ _].
     exists (pw_workers x). apply (j_w _ _ _ _ _ _ _ HJ).
   - rewrite stop_loop_S. pose proof (ppass_J mx tnt x t dl HJop Hq) as Hok.
     pose proof (PoolMono.ppass_same_states x 0 dl 0%nat) as Hss. rewrite Hst in Hss.
     destruct (ppass x 0 dl) as [[x1 r] e]. cbn [fst snd ppass_ok] in *.
     destruct r as [l| | | |]; try contradiction.
-    + destruct Hok as (HJ1 & HG1 & Hl & Hqs).
+    + destruct Hok as (HJ1 & HG1 & Hl & Hqs & Hc1).
       destruct ((p_running (get_pool x1 0) =? 0) || (sat_sub dl (pw_clock x1) =? 0)) eqn:Eend.
       * destruct (0 <? p_running (get_pool x1 0)) eqn:Erun.
-        -- cbn [stop_ok]. exists e. split; [reflexivity|]. split; [exact HJ1 | exact Hss].
-        -- cbn [stop_ok]. exists e. split; [reflexivity|]. exists x1. split; [reflexivity|]. split; [exact HJ1|].
+        -- split; [|cbn [fst snd]; discriminate]. cbn [stop_ok]. exists e. split; [reflexivity|]. split; [exact HJ1 | exact Hss].
+        -- split; [|cbn [fst snd]; discriminate]. cbn [stop_ok]. exists e. split; [reflexivity|]. exists x1. split; [reflexivity|]. split; [exact HJ1|].
            destruct HJ1 as [HJ1 _]. pose proof (j_p _ _ _ _ _ _ _ HJ1) as HP.
            assert (p_running (get_pool x1 0) = 0) as Hr0.
            { rewrite (jp_run _ _ _ HP) in *. pose proof (nlive_nonneg (pw_workers x1)). lia. }
            split; [exact Hr0|]. split; [|exact Hss].
            destruct HG1 as [H|[H|(w & k & Hw & Hlk & _)]]; [exact H | pose proof (jp_mx _ _ _ HP); lia|].
            exfalso. pose proof (nlive_pos _ _ _ Hw Hlk). rewrite (jp_run _ _ _ HP) in Hr0. lia.
-      * apply (stop_ok_chain tnt t acc e). apply IH.
-        -- destruct HJ1 as [HJ1 Hts1]. pose proof (jp_clock _ _ _ (j_p _ _ _ _ _ _ _ HJ1)) as Hc.
-           destruct (sat_add64_mono (pw_clock x1) 1000000 Hc ltac:(lia)) as [M1 M2].
-           split; [|autorewrite with pw; exact Hts1]. autorewrite with pw. apply J_nap; assumption.
-        -- apply quiet_off_fold, Hq.
-        -- autorewrite with pw. exact Hss.
+      * assert (Jop mx tnt (set_clockp x1 (sat_add64 (pw_clock x1) 1000000)) (fold_left pev e t)) as HJ2.
+        { destruct HJ1 as [HJ1 Hts1]. pose proof (jp_clock _ _ _ (j_p _ _ _ _ _ _ _ HJ1)) as Hc.
+          destruct (sat_add64_mono (pw_clock x1) 1000000 Hc ltac:(lia)) as [M1 M2].
+          split; [|autorewrite with pw; exact Hts1]. autorewrite with pw. apply J_nap; assumption. }
+        destruct (IH tnt _ (fold_left pev e t) dl (acc ++ e) HJ2 (quiet_off_fold _ _ Hq) ltac:(autorewrite with pw; exact Hss) Hdl) as [IH1 IH2].
+        split; [apply (stop_ok_chain tnt t acc e), IH1|].
+        intros _ Hrem. apply IH2.
+        -- apply orb_false_iff in Eend as [_ E2]. unfold sat_sub in *. destruct f as [|f']; [exfalso; lia | lia].
+        -- apply orb_false_iff in Eend as [_ E2]. autorewrite with pw. unfold sat_sub, sat_add64 in *.
+           destruct HJ1 as [HJ1 _]. pose proof (jp_clock _ _ _ (j_p _ _ _ _ _ _ _ HJ1)) as Hc. lia.
     + destruct Hok as (_ & _ & Hs). congruence.
-    + cbn [stop_ok]. exists e. split; [reflexivity | exact Hok].
 Qed.
 
 (** the one clause of C11 that the invariant does not give: with nothing left to do, no worker
@@ -439,7 +443,9 @@ Proof.
   assert (quiet_off (stop_ts t)) as Hq1.
   { unfold quiet_off. destruct HJop as [HJ _]. rewrite (stop_ts_pools t (js_pools _ _ _ _ _ (j_s _ _ _ _ _ _ _ HJ))). cbn [nth].
     apply (stop_ks_fields t). }
-  pose proof (stop_loop_J (S (S (Z.to_nat (dur / 1000000)))) tnt x1 (stop_ts t) (get_timeout_time (pw_clock x1) dur) [] HJ1 Hq1 Hst1) as Hok.
+  assert (get_timeout_time (pw_clock x1) dur <= U64MAX) as Hdl.
+  { unfold get_timeout_time, sat_add64. destruct (dur <=? U64MAX); lia. }
+  destruct (stop_loop_J (S (S (Z.to_nat (dur / 1000000)))) tnt x1 (stop_ts t) (get_timeout_time (pw_clock x1) dur) [] HJ1 Hq1 Hst1 Hdl) as [Hok _].
   destruct (stop_loop _ x1 0 _ []) as [[x' r] e]. cbn [stop_ok] in Hok. destruct Hok as (evs & Ee & Hok). cbn [app] in Ee. subst e.
   cbn [fst snd postep is_div stop_clause]. fold (stop_ks t). fold (stop_ts t). set (t1 := fold_left pev evs (stop_ts t)) in *.
   destruct r; try contradiction.
@@ -484,6 +490,29 @@ Proof.
   - pose proof (op_stop_live tnt x t dur HJop ltac:(rewrite Est; discriminate)) as H. cbv zeta in H |- *.
     destruct (stop_loop _ _ 0 _ []) as [[x' r] e]. exact H.
   - cbv zeta. cbn [fst snd is_div stop_clause]. rewrite orb_false_r. apply op_stop_stopped; assumption.
+Qed.
+
+(** a stop whose timeout fits a u64 returns *)
+Lemma op_stop_nodiv tnt x t dur :
+  Jop mx tnt x t -> dur <= U64MAX -> is_div (snd (pstep x (PStop 0 dur))) = false.
+Proof.
+  intros HJop Hdur. cbn [pstep]. unfold pstop. destruct (p_state (get_pool x 0)) eqn:Est; [| |reflexivity].
+  all: set (x1 := upd_pool x 0 (p_with_state PStopping)).
+  all: assert (p_state (get_pool x 0) <> PStopped) as Hne by (rewrite Est; discriminate).
+  all: pose proof (Jop_stop_ts tnt x t HJop Hne) as HJ1; fold x1 in HJ1.
+  all: assert (p_state (get_pool x1 0) = PStopping) as Hst1 by
+      (unfold x1; destruct HJop as [HJ _]; rewrite get_pool_upd_pool_same by (rewrite (jp_pools _ _ _ (j_p _ _ _ _ _ _ _ HJ)); lia); reflexivity).
+  all: assert (quiet_off (stop_ts t)) as Hq1 by
+      (unfold quiet_off; destruct HJop as [HJ _]; rewrite (stop_ts_pools t (js_pools _ _ _ _ _ (j_s _ _ _ _ _ _ _ HJ))); cbn [nth]; apply (stop_ks_fields t)).
+  all: assert (get_timeout_time (pw_clock x1) dur <= U64MAX) as Hdl by (unfold get_timeout_time, sat_add64; destruct (dur <=? U64MAX); lia).
+  all: destruct (stop_loop_J (S (S (Z.to_nat (dur / 1000000)))) tnt x1 (stop_ts t) (get_timeout_time (pw_clock x1) dur) [] HJ1 Hq1 Hst1 Hdl) as [_ Hnd].
+  all: assert (snd (fst (stop_loop (S (S (Z.to_nat (dur / 1000000)))) x1 0 (get_timeout_time (pw_clock x1) dur) [])) <> StopDiverged) as Hnd'.
+  1,3: apply Hnd; [lia|].
+  1,2: unfold get_timeout_time, sat_add64, sat_sub; assert (dur <=? U64MAX = true) as -> by lia;
+       assert (pw_clock x1 = pw_clock x) as -> by reflexivity;
+       destruct (Z_lt_le_dec dur 0) as [Hneg|Hpos]; [lia|];
+       pose proof (Z.mul_succ_div_gt dur 1000000 ltac:(lia)) as Hdiv; pose proof (Z.div_pos dur 1000000 Hpos ltac:(lia)) as Hdp; lia.
+  all: destruct (stop_loop _ x1 0 _ []) as [[x' r] e]; cbn [fst snd] in *; destruct r; try reflexivity; contradiction.
 Qed.
 
 End Ops2.
